@@ -170,7 +170,6 @@ def static_copy(spec, inst):
             _, e, at, env, dyn = v
             if dyn:
                 raise AssertionError("deferred refs are supported for static parents only")
-            reset_keep = mx.get_models()
             r0 = build(spec, "R0")
             try:
                 ns = _NS(get(r0, at), env)
@@ -307,12 +306,6 @@ def handles_of(o):
     return out
 
 
-def lookup(o, relpath):
-    for n in relpath:
-        o = o.named_spaces[n] if n in o.named_spaces else o.cells[n]
-    return o
-
-
 # ------------------------------------------------------------------------------------------ checking
 
 class Fail(Exception):
@@ -322,7 +315,6 @@ class Fail(Exception):
 
 def probe_cells_handle(h, exp_vals):
     """an old cells handle: DeletedObjectError, or the expected value / an error where an error is expected"""
-    from modelx.core.cells import Cells
     try:
         n = len(h.parameters)
     except DeletedObjectError:
@@ -845,7 +837,6 @@ def _part_a(res, t):
             if steps[-1][0] != "item" or objs.get(inst) is None:
                 continue
             parent = get(m, start) if len(steps) == 1 else access(m, (start, steps[:-1]))
-            fdef = None
             # the formula governing the last step: the static space the parent is an instance of
             cur = tuple(start)
             for st in steps[:-1]:
